@@ -14,10 +14,34 @@ import (
 // C02 — the live MPD and the segment server agree on what is available (engine T).
 
 type c02World struct {
-	VodRoot string `json:"vodroot"`
-	Asset   string `json:"asset"`
-	MPD     string `json:"mpd"`
-	Cfg     URLCfg `json:"cfg"`
+	VodRoot string    `json:"vodroot"`
+	Gen     *GenWorld `json:"gen,omitempty"` // generated VoD world instead of the bundled assets
+	Asset   string    `json:"asset"`
+	MPD     string    `json:"mpd"`
+	Cfg     URLCfg    `json:"cfg"`
+}
+
+func (w c02World) root() string {
+	if w.Gen != nil {
+		return genRoot(*w.Gen)
+	}
+	return vodRootOf(w.VodRoot)
+}
+
+// pickMPDWorld draws a bundled MPD or (35 %) a generated asset: (vodroot label, gen, asset, mpd, model).
+func pickMPDWorld(rng *core.Rng) (string, *GenWorld, string, string, *refmodel.Asset) {
+	for {
+		if rng.Chance(0.35) {
+			g := pickGenWorld(rng)
+			a := refAssets(genRoot(*g))[g.Spec.Name]
+			if a == nil || a.Bad != "" {
+				continue
+			}
+			return "generated", g, g.Spec.Name, g.Spec.MPD, a
+		}
+		ar := core.Pick(rng, bundledMPDs)
+		return "bundled", nil, ar.Asset, ar.MPD, refAssets(hx.BundledAssets)[ar.Asset]
+	}
 }
 
 type c02Op struct {
@@ -107,19 +131,20 @@ func targetedInstants(rng *core.Rng, a *refmodel.Asset, c URLCfg, base int64, n 
 }
 
 func (C02) Gen(rng *core.Rng, tier string, idx int) *core.Scenario {
-	ar := core.Pick(rng, bundledMPDs)
-	assets := refAssets(hx.BundledAssets)
-	a := assets[ar.Asset]
+	label, gen, assetName, mpdName, a := pickMPDWorld(rng)
 	base := int64(1_600_000_000_000) + rng.Int63n(300_000_000_000)
 	if rng.Chance(0.15) {
 		base = rng.Int63n(4_000_000_000_000)
 	}
+	if maxBase := int64(1<<31) * a.SegDurMS; base > maxBase { // numbers must fit 32 bits (short generated segments)
+		base = rng.Int63n(maxBase)
+	}
 	cfg := genTimelineCfg(rng, a, base)
-	if rng.Chance(0.25) {
+	if rng.Chance(0.25) && a.Ref().ContentType == "video" { // generated subtitles follow the video track
 		langs := core.Pick(rng, []string{"en", "sv", "en,sv"})
 		cfg.Extra = append(cfg.Extra, core.Pick(rng, []string{"timesubsstpp_", "timesubswvtt_"})+langs)
 	}
-	w := c02World{VodRoot: "bundled", Asset: ar.Asset, MPD: ar.MPD, Cfg: cfg}
+	w := c02World{VodRoot: label, Gen: gen, Asset: assetName, MPD: mpdName, Cfg: cfg}
 	sc := core.NewScenario("C02", "tlsim", 0, tier, w)
 	nPolls := rng.Range(3, 8)
 	if tier == "thorough" {
@@ -169,7 +194,7 @@ func (C02) Run(t *testing.T, sc *core.Scenario, res *core.Result) {
 	if err != nil {
 		panic(err)
 	}
-	root := vodRootOf(w.VodRoot)
+	root := w.root()
 	srv := sharedSrv(root)
 	a := refAssets(root)[w.Asset]
 	if a == nil {
@@ -177,7 +202,7 @@ func (C02) Run(t *testing.T, sc *core.Scenario, res *core.Result) {
 	}
 	cfg := w.Cfg
 	prefix := cfg.Prefix(w.Asset)
-	feat := merge(cfg.Features(a), assetTraits(a))
+	feat := merge(cfg.Features(a), assetTraits(a), core.Sig("world", w.VodRoot))
 	inits := map[string]*hx.Init{}
 	var lo, hi int64
 	for i, op := range ops {
@@ -229,6 +254,13 @@ func c02Poll(res *core.Result, srv *hx.Srv, a *refmodel.Asset, w c02World, cfg U
 	if err != nil {
 		res.Violate("C02.mpd-served", merge(feat, core.Sig("kind", "mpd-unparsable")), "MPD at %d: %v", now, err)
 		return
+	}
+	if cm.InvalidMUP {
+		sub := "false"
+		if a.SegDurMS < 1000 {
+			sub = "true"
+		}
+		res.Violate("C02.mpd-wellformed", core.Sig("kind", "invalid-duration-attribute", "segment-below-1s", sub), "MPD at %d: minimumUpdatePeriod / maxSegmentDuration is not an xs:duration", now)
 	}
 	if cm.ASTms != astMS {
 		res.Violate("C02.ast", merge(feat, core.Sig("kind", "ast-mismatch")), "AST %d != configured %d", cm.ASTms, astMS)
@@ -572,13 +604,16 @@ func c02CheckSeg(res *core.Result, srv *hx.Srv, prefix string, ca ClientAS, in *
 	if mts == 0 || dts == 0 {
 		return
 	}
+	// A declared value that is not a whole number of media ticks cannot be met exactly:
+	// the served one must then be within one media tick of it.
+	subTickT, subTickD := (ds.T*mts)%dts != 0, (ds.D*mts)%dts != 0
 	dt := absDiff(sg.Tfdt()*dts, ds.T*mts)
-	if (tolT == 0 && dt != 0) || (tolT > 0 && dt >= tolT*dts) {
+	if (tolT == 0 && dt != 0 && !(subTickT && dt < dts)) || (tolT > 0 && dt >= tolT*dts) {
 		res.Violate("C02.declared-time", merge(f, core.Sig("kind", "tfdt-mismatch", "dir", dir(int64(sg.Tfdt()*dts), int64(ds.T*mts)))),
 			"%s: tfdt %d (timescale %d), declared %d (timescale %d)", ds.URL, sg.Tfdt(), mts, ds.T, dts)
 	}
 	dd := absDiff(sg.Dur*dts, ds.D*mts)
-	if (tolT == 0 && dd != 0) || (tolT > 0 && dd >= tolT*dts) {
+	if (tolT == 0 && dd != 0 && !((subTickT || subTickD) && dd < dts)) || (tolT > 0 && dd >= tolT*dts) {
 		res.Violate("C02.declared-duration", merge(f, core.Sig("kind", "duration-mismatch")),
 			"%s: duration %d (timescale %d), declared %d (timescale %d)", ds.URL, sg.Dur, mts, ds.D, dts)
 	}
